@@ -102,7 +102,6 @@ type G struct {
 	notify   chan struct{} // closed and replaced at every log append
 	quit     chan struct{} // closed at cleanup: gates give up, scripts end
 	quitOnce sync.Once
-	canon    canon
 }
 
 // ClusterOpts are the kfake options of the family.
@@ -236,6 +235,25 @@ func (g *G) Owned(member string) []TP {
 	}
 	sort.Slice(out, func(i, j int) bool { return out[i].T < out[j].T || out[i].T == out[j].T && out[i].P < out[j].P })
 	return out
+}
+
+// InRevoke reports whether member is currently inside an OnPartitionsRevoked
+// (or Lost) callback that names at least one partition.
+func (g *G) InRevoke(member string) bool {
+	g.mu.Lock()
+	defer g.mu.Unlock()
+	open := 0
+	for _, e := range g.cbs {
+		if e.Member != member || e.Kind == "assigned" || len(e.Parts) == 0 {
+			continue
+		}
+		if e.End {
+			open--
+		} else {
+			open++
+		}
+	}
+	return open > 0
 }
 
 // Seen reports whether a callback boundary of the given member/kind/phase is in the log.
